@@ -19,7 +19,8 @@ FORMATS = {  # name: (kind, variables in file order, Memmap module, Read module,
 }
 
 
-def gen(rng, fmt=None, mint=2):
+def gen(rng, fmt=None, mint=2, longspan=None):
+    """longspan: None = random (25 % long), False = hourly/3-hourly only, 6/12/24 = that step in hours"""
     fmt = fmt or rng.choice(sorted(FORMATS))
     kind = FORMATS[fmt][0]
     nx, ny, nz, nt = rng.randint(1, 4), rng.randint(1, 4), rng.randint(1, 3), rng.randint(mint, 4)
@@ -27,6 +28,11 @@ def gen(rng, fmt=None, mint=2):
     jjj = rng.choice([1, 59, 200, 365])
     h0 = rng.choice([0, 5, 12, 20, 22])
     step = rng.choice([1, 1, 1, 3])
+    if longspan or (longspan is None and rng.random() < 0.25):
+        # long spans: half-day and whole-day steps, more steps (two or more midnights inside the file)
+        step = longspan or rng.choice([6, 12, 24, 24])
+        nt = rng.randint(max(mint, 2), 6)
+        jjj = rng.choice([1, 59, 200])
     flags = []
     for t in range(nt):
         h = h0 + t * step
@@ -65,6 +71,8 @@ def _cls(path):
 
 def open_reader(c, path, which):
     cls = _cls(FORMATS[c['fmt']][2 if which == 'memmap' else 3])
+    if c.get('noshape'):
+        return cls(path)            # rows and columns left to the reader (one row or one column of all cells)
     return cls(path, c['ny'], c['nx'])
 
 
@@ -141,11 +149,14 @@ def write_with_library(c, dtype='f'):
 
 def gen_wind(rng):
     while True:
-        c = gen(rng, 'one3d')
+        c = gen(rng, 'one3d', mint=1)       # a wind file may hold a single time step (its step ends with a closing record)
         if c['nx'] * c['ny'] >= 4:       # records of 4, 8 or 12 bytes are the closing / header records
             break
     n = c['nx'] * c['ny']
     c['fmt'] = 'wind'
+    if rng.random() < 0.2:               # many steps on a small grid (the step count comes from the file size)
+        d0, h0 = c['flags'][0]
+        c['flags'] = [[d0 + (h0 // 100 + t) // 24, ((h0 // 100 + t) % 24) * 100] for t in range(rng.randint(5, 9))]
     c['data'] = [[[camx.rand_f32_bits(rng) for _ in range(n)] for _ in range(2 * c['nz'])] for _ in c['flags']]
     c['stag'] = rng.choice([None, 0, 1])            # None: old files with a two-word time header
     return c
